@@ -212,7 +212,7 @@ def specs(ctx):
     geo2 = (mc.MC_TESTS / 'GEOPHIRES-example_SHR-2.txt').read_text()
     failing = [('Reservoir Temperature', 'uniform', [40, 70]), ('Reservoir Area', 'uniform', [50.0, 120.0]),
                ('Reservoir Porosity', 'normal', [97, 3])]
-    out = [dict(name='contended', W=16, st=mc.make_settings(rnd, 32 if q else 300)),
+    out = [dict(name='contended', W=16, st=mc.make_settings(rnd, 24 if q else 300)),
            dict(name='serial', W=1, st=mc.make_settings(rnd, 6 if q else 60)),
            dict(name='failing', W=4, st=mc.make_settings(rnd, 20 if q else 200, inputs=failing, n_outputs=3)),
            dict(name='geophires', W=3, st=geo_st + f'ITERATIONS, {5 if q else 24}\n', program='GEOPHIRES', base=geo)]
@@ -223,12 +223,12 @@ def specs(ctx):
     if not q:
         out += [dict(name=f'extra{k}', W=rnd.choice([2, 3, 8, 16]), st=mc.make_settings(rnd, rnd.choice([25, 80]))) for k in range(8)]
         out += [dict(name='geophires2', W=4, st=geo2_st + 'ITERATIONS, 12\n', program='GEOPHIRES', base=geo2)]
-    return mc.corpus_specs('C14') + out     # seeds first: the witnesses of the two refuted clauses
+    return mc.corpus_specs('C14', q) + [o for o in out if not (q and o['name'] == 'serial')]     # seeds first: the witnesses of the two refuted clauses
 
 
 def correspondence(ctx, proofs_ok=True):
     bools = []
-    judge(ctx, mc.run_jobs(ctx, specs(ctx), parallel=4), bools, max_rows=24 if ctx.quick else 120)
+    judge(ctx, mc.run_jobs(ctx, specs(ctx), parallel=4), bools, max_rows=16 if ctx.quick else 120)
     for i in fw.kernel_bools(ctx, 'c14', REQ, [b for b, _ in bools], shard=40, open_scope='string_scope'):
         bools[i][1]()
     ctx.count('kernel-checks', evaluations=len(bools))
